@@ -28,7 +28,7 @@ func main() {
 	only := flag.String("rule", "", "run only this rule (diagnostic; no evidence written)")
 	explain := flag.String("explain", "", "print a violations file and exit")
 	debug := flag.String("debug", "", "print engine internals (eff|sm) and exit")
-	embed := flag.String("embed", "", "key:file - embed a JSON file into the evidence under coverage.<key> (informational)")
+	embed := flag.String("embed", "", "key:file[,key:file…] - embed JSON files into the evidence under coverage.<key> (informational)")
 	also := flag.String("also", "", "label:exitcode:logfile of a run of the same check under another build configuration; verdicts must agree")
 	flag.Parse()
 
@@ -143,8 +143,8 @@ func main() {
 			res.Explanation = "static obligations discharged by repository-specific rules"
 		}
 		res.Classify(findings)
-		if *embed != "" {
-			if parts := strings.SplitN(*embed, ":", 2); len(parts) == 2 {
+		for _, one := range strings.Split(*embed, ",") {
+			if parts := strings.SplitN(one, ":", 2); len(parts) == 2 {
 				if b, err := os.ReadFile(parts[1]); err == nil {
 					var v interface{}
 					if json.Unmarshal(b, &v) == nil {
